@@ -4,7 +4,7 @@ from ref import pools, zkp, rangeproof as rp
 
 ID = "C09"
 LEVEL = "exploration"
-CONFIGS = {"quick": ["san"], "thorough": ["san", "san_nv", "mx_i64"]}
+CONFIGS = {"quick": ["san", "san_nv"], "thorough": ["san", "san_nv", "mx_i64"]}
 RULE = ("rangeproof_sign on value / min_value from the u64 edge pool (0, 1, 10^k, 2^k, 2^63-1, 2^63, 2^64-1, min == value), exp in [-2,19], min_bits in "
         "[-1,65], message lengths 0..4000 (128k+-1), extra commitments 0..100 bytes, blinding factors 0 / 1 / n-1 / n / random, buffers "
         "{0,64,65,needed-1,needed,max_size,5134}, generators h / derived / blinded; each successful proof is verified, its range compared with info and "
@@ -196,7 +196,7 @@ def run_config(ctx, config):
     for value, minv, exp, min_bits in ctx.mine(zb if not ctx.quick else zb[:1] + rng2.sample(zb[1:], 30)):
         one(ctx, config, rng, alt, value, minv, exp, min_bits, 0, 0, rng.choice((0, 32)), rng.choice((0, 1)), "zero_blind_clamp")
     # random fill with messages, blinds, buffers
-    for it in range(ctx.n(640, 20000)):
+    for it in ctx.iters(640, 20000):
         value = pools.u64(rng, 0.5) if it % 3 else rng.randrange(2**20)
         minv = rng.choice((0, 0, value, value // 2, max(value - 1, 0), pools.u64(rng)))
         exp = rng.choice((-1, 0, 0, 0, 1, 2, 3, 7, 18, rng.randrange(-2, 20)))
@@ -206,5 +206,5 @@ def run_config(ctx, config):
         one(ctx, config, rng, alt, value, minv, exp, min_bits, blind, msglen, rng.choice((0, 0, 1, 33, 100)), rng.choice((0, 0, 0, 1, 2, 3, 4, 5, 6, 7)), "random")
 
 def run(ctx):
-    for config in ctx.configs:
+    for config in ctx.cfgs():
         run_config(ctx, config)
